@@ -226,3 +226,30 @@ PLANS["C03"] = dict(
     extra=extra_c03,
     assumptions=["cycle duration > 0, finite delay (the property's hypotheses)"],
 )
+
+
+# ---------------------------------------------------------------------------------------------------
+# timeline-level properties decided on the `tl` / `merged` suites
+
+TL_FLOORS = {"quick": {"op:upd": 5000, "op:tl": 300, "op:start": 50, "op:clone": 50}}
+
+PLANS["C08"] = dict(
+    suites=[Suite("tl", 400, 30000), Suite("merged", 150, 10000), Suite("anim", 200, 10000)],
+    floors=TL_FLOORS,
+    assumptions=["the derive-generated update is modelled by applySubs over the animated-field list (validated on three derive shapes incl. a #[animate] subset and a remote proxy)"],
+)
+PLANS["C09"] = dict(
+    suites=[Suite("tl", 500, 40000), Suite("merged", 100, 5000)],
+    floors=TL_FLOORS,
+    assumptions=["history-independence of the implementation is decided by the differential run (every output of an interleaved session equals the model's pure function), not by a theorem"],
+)
+PLANS["C11"] = dict(
+    suites=[Suite("tl", 500, 40000)],
+    floors=TL_FLOORS,
+    assumptions=["keyframe positions are non-negative and not NaN (total_cmp then agrees with <); -0.0 is excluded"],
+)
+PLANS["C12"] = dict(
+    suites=[Suite("merged", 400, 30000)],
+    floors={"quick": {"op:merge": 300, "op:updchain": 1000, "op:upd": 2000}},
+    assumptions=[],
+)
